@@ -235,6 +235,12 @@ func Harness_C09_http() {
 	// 0 GET, 1 POST application/json, 2 POST application/graphql, 3 POST urlencoded form, 4 POST multipart form
 	tr := zzsym.Choice("method", 2+zzsym.Param("forms", 0)*3)
 	get := tr == 0
+	defsrv := zzsym.Param("forms", 0) == 1 && zzsym.Choice("server", 2) == 1
+	if defsrv {
+		// the documented example server (websocket, OPTIONS, GET, POST, multipart form; LRU query cache, introspection, APQ)
+		zzsym.Assume(rhi == 0 && (tr == 0 || tr == 1 || tr == 4))
+		srv = NewDefaultServer(es)
+	}
 	r := &http.Request{Header: http.Header{}, URL: &url.URL{Path: "/query"}}
 	if acc.header != "" {
 		r.Header.Set("Accept", acc.header)
@@ -269,7 +275,9 @@ func Harness_C09_http() {
 		r.Method = "POST"
 		r.Header.Set("Content-Type", "multipart/form-data; boundary=B")
 		r.Body = io.NopCloser(strings.NewReader("--B\r\nContent-Disposition: form-data; name=\"operations\"\r\n\r\n" + hJSONBody(d) + "\r\n--B\r\nContent-Disposition: form-data; name=\"map\"\r\n\r\n{}\r\n--B--\r\n"))
-		srv.AddTransport(transport.MultipartForm{ResponseHeaders: hRespHdrs[rhi].hdr})
+		if !defsrv {
+			srv.AddTransport(transport.MultipartForm{ResponseHeaders: hRespHdrs[rhi].hdr})
+		}
 	}
 	w := newHWriter()
 	srv.ServeHTTP(w, r)
